@@ -160,6 +160,7 @@ namespace
         int timeout_ms = 0;
         int gap_ms     = 0;
         int thread     = 0;
+        int round      = -1; // >= 0: burst shape, issued together with the other threads' requests of that round
         Plan plan;
         // outcome
         std::atomic<int> fulfilled { 0 }, rejected { 0 };
@@ -171,6 +172,7 @@ namespace
             , timeout_ms(o.timeout_ms)
             , gap_ms(o.gap_ms)
             , thread(o.thread)
+            , round(o.round)
             , plan(o.plan)
         { }
     };
@@ -303,6 +305,31 @@ namespace verif
             rep.label("hanging-head(requests queued when a time-out fires)");
             desc = "[hanging head: the first " + std::to_string(maxconn) + " request(s) time out while the rest is queued] " + describe();
         }
+        // "burst" shape (derived from the request count, no further choice consumed): 4 user threads, each
+        // sending one immediately answered request per round, all four released by a spin barrier at the
+        // same instant, 60-180 rounds, as many connections as threads.  Aims at the claim of a pooled
+        // connection: two threads that see the same connection idle in the same few nanoseconds.
+        int burst_rounds = 0;
+        if (n % 3 != 0 && n % 5 == 0)
+        {
+            const int T  = 4;
+            burst_rounds = 60 + int(n % 7) * 20;
+            uthreads     = T;
+            maxconn      = T;
+            n            = unsigned(burst_rounds * T);
+            reqs         = std::vector<Req>(n);
+            kinds.clear();
+            kinds.insert(int(Immediate));
+            for (unsigned i = 0; i < n; ++i)
+            {
+                reqs[i].tag    = "c" + std::to_string(case_no) + "b" + std::to_string(i / T) + "t" + std::to_string(i % T);
+                reqs[i].thread = int(i % T);
+                reqs[i].round  = int(i / T);
+            }
+            segmented = true; // counts as non-trivial
+            rep.label("burst(simultaneous claims from 4 threads)");
+            desc = "[burst: " + std::to_string(burst_rounds) + " rounds x 4 threads released together] " + describe();
+        }
         std::string cfg = "client threads=" + std::to_string(cthreads) + " maxConnectionsPerHost=" + std::to_string(maxconn) + " requests=" + std::to_string(n) + " user threads=" + std::to_string(uthreads);
         rep.label("maxconn=" + std::to_string(maxconn));
         for (int k : kinds)
@@ -354,12 +381,28 @@ namespace verif
             }
         });
         std::vector<std::thread> ut;
+        auto arrivedp = std::make_shared<std::vector<std::atomic<int>>>(size_t(burst_rounds > 0 ? burst_rounds : 1));
         for (int t = 0; t < uthreads; ++t)
-            ut.emplace_back([&, t] {
+            ut.emplace_back([&, t, arrivedp] {
+                const Req* mine_prev = nullptr;
                 for (auto& r : reqs)
                 {
                     if (r.thread != t)
                         continue;
+                    if (r.round >= 0)
+                    {
+                        // wait for the answer to this thread's request of the previous round (bounded), then
+                        // line up with the other threads so that all four call into the client together
+                        if (mine_prev)
+                            for (int spin = 0; spin < 2000 && mine_prev->fulfilled + mine_prev->rejected == 0; ++spin)
+                                net::sleep_ms(1);
+                        auto& a = (*arrivedp)[size_t(r.round)];
+                        ++a;
+                        for (long spin = 0; a.load() < uthreads && spin < 20000000; ++spin)
+                        {
+                        }
+                        mine_prev = &r;
+                    }
                     if (r.gap_ms)
                         net::sleep_ms(r.gap_ms);
                     Req* rp     = &r;
